@@ -605,7 +605,9 @@ namespace probe {
          out << "destroyed leak=" << (live_blocks - base_blocks) << " bad=0\n";
          if (accounting)
             out << "@bytes_back_to_baseline=" << (live_bytes == base_bytes ? 1 : 0) << '\n';
+#ifndef IPR_PROBE_LIBRARY
          out << "@blocks_released_with_the_size_they_were_allocated_with=" << (sized_delete_mismatches == 0 ? 1 : 0) << '\n';
+#endif
 #if PROBE_ASAN
          if (check_leaks)
             out << "@lsan_clean=" << (__lsan_do_recoverable_leak_check() == 0 ? 1 : 0) << '\n';
